@@ -50,7 +50,7 @@ class CalleeGen:
             elif kind == "selem" and (free_arr or mm_free):
                 if mm_free and (not free_arr or r.random() < 0.25):
                     mm_free = False
-                    f["actual"] = f"mm({_sub(r)}, {_sub(r)})"
+                    f["actual"] = f"mm({_sub(r)}, {r.choice(['i', 'j', 'i+1', 'j+1', '3', 'i+j-2', '4'])})"
                 else:
                     arr = free_arr.pop()
                     sub = _sub(r)
@@ -241,10 +241,11 @@ class CalleeGen:
             sv = [f for f in self.formals if f["kind"] == "svar"]
             if sv:
                 v = sv[0]["name"]
-                self.lloop_save = self.lloop
+                sv[0]["definable"] = False           # a DO variable must not be redefined inside its loop
                 body.append(f"    do {v} = 1, 3")
-                body += self.stmts(r.randint(1, 2), [], "      ", 1)
+                body += self.stmts(r.randint(1, 2), [], "      ", 2)
                 body.append("    enddo")
+                sv[0]["definable"] = True
         if self.o.get("bump"):
             # make sure a subscript / expression variable passed as another argument is modified early
             sv = [f for f in self.formals if f["kind"] == "svar" and f["actual"] in ("i", "j", "n")]
